@@ -135,6 +135,10 @@ def _reducer_runs(chk, tier, select, faults):
     for mode in ("solve", "minimize", "maximize"):
         for workers, K, sp in grid:
             jobs.append(dict(key="reducer", params=dict(mode=mode, workers=workers, K=K, faults=faults, spurious=sp, select=list(select), known=known), label=f"{mode}/workers={workers}/K={K}/faults={faults}/spurious={sp}", time_limit=1500 if tier == "quick" else 7200, flags=dict(loop_budget=60), tag=f"{mode}/{workers}"))
+    # a second call on the same MultiprocessingSolver object (whatever the first call left on the object must not matter)
+    for prior, mode in (("solve", "solve"), ("minimize", "maximize"), ("solve", "minimize")):
+        workers, K, sp = (2, 1, 1)
+        jobs.append(dict(key="reducer", params=dict(mode=mode, workers=workers, K=K, faults=faults, spurious=sp, select=list(select), known=known, prior=prior), label=f"{prior}-then-{mode}/workers={workers}/K={K}/faults={faults}/spurious={sp}", time_limit=1500 if tier == "quick" else 7200, flags=dict(loop_budget=60), tag=f"{prior}-then-{mode}/{workers}"))
     for job, r in zip(jobs, chk.explore_many(jobs)):
         if not faults:
             chk.require(job["tag"], r.acc.counts.get("returned", 0) > 0, "no healthy run returned")
@@ -216,6 +220,18 @@ from . import solvefam  # noqa: E402
 OPT_MODELS = ["lt", "sum_eq", "alldiff3", "max_eq", "obj_under_leq", "obj_shared_offset", "free2", "restart2", "shared_twice", "dummy_only", "geq_leq", "count", "relation", "element_iv", "noncoprime_eq", "restart3"]
 
 
+def _orders(n, tier):
+    """posting orders other than the identity: all of them up to 3 constraints; for 4 and more the reversal and the two rotations
+    in the quick tier (every constraint is first once and last once), all in the thorough tier"""
+    import itertools
+
+    perms = [list(o) for o in itertools.permutations(range(n))][1:]
+    if n <= 3 or tier != "quick":
+        return perms
+    ident = list(range(n))
+    return [ident[::-1], ident[1:] + ident[:1], ident[-1:] + ident[:-1]]
+
+
 def _objectives(name):
     from nusym import h_solve
 
@@ -254,7 +270,7 @@ def c02(tier, seed, only):
             continue
         n = len(md["props"])
         if n >= 2:
-            for order in list(itertools.permutations(range(n)))[1:]:
+            for order in _orders(n, tier):
                 d.add(["C02", "C01"], [(name, {})], order=list(order))
     batch = d.run()
     chk.assumptions.append("'the same multiset for every configuration and posting order' holds because every run is compared with the same semantic set {x in box | all documented relations hold} by a z3 query (exactly once + complete)")
@@ -579,7 +595,7 @@ def c15(tier, seed, only):
             continue
         jobs.append(dict(key="prop_ties", params=dict(cfg=cfg), label=f"ties/{cfg['alg']}/n={cfg['n']}/{cfg['params']}", flags=dict(loop_budget=4000)))
     # (b) no dependence on uninitialised memory, (c) history independence
-    hist = [["other_solver_abandoned"], ["other_solver_exhausted"], ["minimize_first"], ["register_extras"], ["split"], ["init_twice"], ["other_solver_abandoned", "register_extras"], ["minimize_first", "other_solver_exhausted"], ["sibling_problem"], ["sibling_problem", "other_solver_abandoned"]]
+    hist = [["other_solver_abandoned"], ["other_solver_exhausted"], ["minimize_first"], ["register_extras"], ["split"], ["init_twice"], ["other_solver_abandoned", "register_extras"], ["minimize_first", "other_solver_exhausted"], ["sibling_problem"], ["sibling_problem", "other_solver_abandoned"], ["other_solver_abandoned", "then_split_part0"], ["minimize_first", "then_split_part0"]]
     models = ["lt", "alldiff3", "queens_like", "shared_twice", "count", "circuit3", "max_eq", "magic_like", "relation_alldiff", "element_iv", "gcc", "lt_zero_mid"]
     if tier == "quick":
         models = ["lt", "alldiff3", "shared_twice", "circuit3", "magic_like", "relation_alldiff", "lt_zero_mid"]
@@ -649,6 +665,10 @@ def c20(tier, seed, only):
         for n_ in (2, 3) if tier == "quick" else (2, 3, 4):
             r_ = chk.explore("model_knapsack", dict(n=n_), f"knapsack/symbolic volumes and capacity/n={n_}")
             chk.require("knapsack", r_.acc.counts.get("constructor-path", 0) > 0, "constructor never returned")
+    if not only or "latin_givens" in only:
+        for n_, b_ in ((3, 0), (3, 1)) if tier == "quick" else ((3, 0), (3, 1), (4, 0)):
+            r_ = chk.explore("model_latin_givens", dict(n=n_, base=b_), f"latin square/symbolic givens/n={n_}/colours from {b_}")
+            chk.require("latin_givens", r_.acc.counts.get("constructor-path", 0) > 0, "constructor never returned")
     if not only or "golomb" in only:
         from nusym import h_golomb  # noqa
 
